@@ -49,6 +49,14 @@ Theorem redirs_keep_table_wellformed : forall nc s rs s' stack ok,
   sorted (k_tab s') /\ below_limit (k_lim s') (k_tab s') /\ k_lim s' = k_lim s.
 Proof. exact wellformed_lemma. Qed.
 
+(* ... also of whole commands, exec included: the hypotheses hold again for the
+   next command of the script *)
+Theorem command_keeps_table_wellformed : forall nc s c s' inside ex,
+  sorted (k_tab s) -> below_limit (k_lim s) (k_tab s) ->
+  run_cmd nc s c = (s', inside, ex) ->
+  sorted (k_tab s') /\ below_limit (k_lim s') (k_tab s').
+Proof. exact command_keeps_wf_lemma. Qed.
+
 (* every kind of command, however it ends: the shell's table afterwards is the
    table before, except after a successful exec *)
 Theorem command_restores_table : forall nc s c s' inside ex,
@@ -175,47 +183,26 @@ Theorem oracle_persisted_sound : forall nc s c s' inside,
   persisted_ok (targets (c_redirs c)) (k_tab s) (k_tab s') = true.
 Proof. exact ProofsSpec.oracle_persisted_sound. Qed.
 
-(* -- non-vacuity ------------------------------------------------------------------------------------ *)
+(* non-vacuity of the hypotheses: see Examples.v (hypotheses_satisfiable, ...) *)
 
-(* A process with descriptors 0-2 and 5, a limit of 12, an allocation failure
-   injected at the fourth allocation; the list  0</3  5>&-  1>/4  2<</  ...:
-   the hypotheses hold, three redirections succeed (two descriptors saved at
-   10 and 11), the fourth fails. *)
-Definition ex_state : kst :=
-  mkK [(0, mkEnt 0 false); (1, mkEnt 1 false); (2, mkEnt 2 false); (5, mkEnt 1 false)]%N
-      (Some 12%N) [false; false; false; false; false; true] 3%N
-      [(2, mkOfd (FPath 2) true true true); (1, mkOfd (FPath 1) true true true);
-       (0, mkOfd (FPath 0) true true true)]%N
-      [(3, Reg [65; 66] false); (4, Reg [67] false)]%N.
-
-Definition ex_redirs : list redir :=
-  [mkRedir 0 (BFile FileIn (PKey 3)); mkRedir 5 (BDup FdOut DClose);
-   mkRedir 1 (BFile FileOut (PKey 4)); mkRedir 2 (BHere [104; 10])]%N.
-
-Example hypotheses_satisfiable :
-  sorted (k_tab ex_state) /\ below_limit (k_lim ex_state) (k_tab ex_state)
-  /\ exists s' stack,
-       perform_redirs false ex_state ex_redirs [] = (s', stack, false)
-       /\ saves stack = [11; 10]%N
-       /\ k_tab s' <> k_tab ex_state
-       /\ k_tab (undo_redirs s' stack) = k_tab ex_state.
-Proof.
-  split; [|split].
-  - cbn. repeat split; intros k' H; cbn in H; intuition lia.
-  - intros k' H. cbn in H. intuition (subst; reflexivity).
-  - eexists. eexists. split; [vm_compute; reflexivity|].
-    split; [reflexivity|]. split; [vm_compute; discriminate|vm_compute; reflexivity].
-Qed.
-
-Example success_case_satisfiable :
-  exists s' stack,
-    perform_redirs false (with_lim ex_state None) (firstn 3 ex_redirs ++ [mkRedir 7 (BDup FdIn (DFd 0))]%N) []
-    = (s', stack, true) /\ view (k_tab s') 7%N = view (k_tab s') 0%N /\ view (k_tab s') 7%N <> None.
-Proof.
-  eexists. eexists. split; [vm_compute; reflexivity|]. split; [reflexivity|vm_compute; discriminate].
-Qed.
-
-Example noclobber_case_satisfiable :
-  fs_get (k_fs ex_state) 4%N = Some (Reg [67]%N false)
-  /\ exists s', perform true ex_state (mkRedir 1 (BFile FileOut (PKey 4)))%N = (s', None).
-Proof. split; [reflexivity|]. eexists. vm_compute. reflexivity. Qed.
+Print Assumptions min_unused_spec.
+Print Assumptions undo_restores.
+Print Assumptions undo_restores_table.
+Print Assumptions failed_redir_changes_nothing.
+Print Assumptions redirs_keep_table_wellformed.
+Print Assumptions command_keeps_table_wellformed.
+Print Assumptions command_restores_table.
+Print Assumptions script_item_restores_table.
+Print Assumptions undo_restores_needs_limit_refuted.
+Print Assumptions redirs_applied_in_order.
+Print Assumptions redirs_succeed_when_unconstrained.
+Print Assumptions noclobber_refuses_existing_regular.
+Print Assumptions internal_fds_ge_10_cloexec.
+Print Assumptions saved_fds_intact.
+Print Assumptions saved_fd_never_target.
+Print Assumptions undo_never_panics.
+Print Assumptions preserve_keeps_only_targets.
+Print Assumptions preserve_keeps_view.
+Print Assumptions oracle_restored_sound.
+Print Assumptions oracle_internal_sound.
+Print Assumptions oracle_persisted_sound.
